@@ -4,27 +4,26 @@ import CTV.Model.Retry
 
 Theorems over the **regenerated** kernels `Gen.backoffSet` (jsonclient/backoff.go `backoff.set`, with `time.Now()` as
 the parameter `now_`), `Gen.waitDur` (the sleep computed by `waitForBackoff`), `Gen.retryClass` (the status switch of
-`PostAndParseWithRetry`), `Gen.retryAfterSeconds`, `Gen.maxMultiplier`, `Gen.maxJitter`, and the hand model of the loop
-in `CTV.Model.Retry` (tied by the virtual-time correspondence run). Instants and durations are int64 nanoseconds with
-Go's wrap-around (`I64.*`); the hypotheses `InT` say that instants are ordinary dates (between 1823 and 2116), which is
-what keeps `time.Time` arithmetic away from its saturation points.
+`PostAndParseWithRetry`), `Gen.retryAfterSeconds` (the duration computed from `Retry-After: <seconds>`, including its
+overflow handling), `Gen.maxMultiplier`, `Gen.maxJitter`, and the hand model of the loop in `CTV.Model.Retry` (tied by
+the virtual-time correspondence run).
+
+Instants are unbounded integers of nanoseconds (`time.Time` covers far more than int64 nanoseconds; `Time.Add` is exact
+there: `T.add`), durations are int64 with Go's semantics: `Time.Sub`/`time.Until` **saturate** (`T.sub`), arithmetic on
+`time.Duration` **wraps** (`I64.*`). No "ordinary date" side conditions are needed.
 -/
 set_option linter.unusedSimpArgs false
 namespace C13
 open I64 CTV.Model.Retry
 
-/-- an ordinary instant (1970 … 2116) or the stand-in for the zero `time.Time`: representable with room to add any wait
-the code computes -/
-def InT (t : Int) : Prop := -(2^62) ≤ t ∧ t < 2^62
-
+theorem w (x : Int) (h1 : -(2^63) ≤ x) (h2 : x < 2^63) : wrap64 x = x := wrap64_id' x h1 h2
 theorem add_eq (a b : Int) (h1 : -(2^63) ≤ a + b) (h2 : a + b < 2^63) : I64.add a b = a + b := by
   unfold I64.add; exact wrap64_id' _ h1 h2
-theorem sub_eq (a b : Int) (h1 : -(2^63) ≤ a - b) (h2 : a - b < 2^63) : I64.sub a b = a - b := by
-  unfold I64.sub; exact wrap64_id' _ h1 h2
 theorem mul_eq (a b : Int) (h1 : -(2^63) ≤ a * b) (h2 : a * b < 2^63) : I64.mul a b = a * b := by
   unfold I64.mul; exact wrap64_id' _ h1 h2
 
-theorem w (x : Int) (h1 : -(2^63) ≤ x) (h2 : x < 2^63) : wrap64 x = x := wrap64_id' x h1 h2
+/-- a `time.Duration` value -/
+def IsDur (d : Int) : Prop := -(2^63) ≤ d ∧ d < 2^63
 
 /-- `1 << (m-1)` seconds for the multipliers the code can reach -/
 theorem ladder (m : Int) (h1 : 1 ≤ m) (h8 : m ≤ 8) :
@@ -51,7 +50,7 @@ theorem set_mult_inv (nb m now : Int) (ov : Option Int) (h : 0 ≤ m ∧ m ≤ G
       simp only [Option.isSome_none, Bool.false_eq_true, if_false, decide_eq_true_eq]
       split
       · rename_i hlt
-        have : I64.add m 1 = m + 1 := by unfold I64.add; exact w _ (by omega) (by omega)
+        have : I64.add m 1 = m + 1 := add_eq _ _ (by omega) (by omega)
         simp only [this]; (try dsimp only); omega
       · (try dsimp only); omega
 
@@ -63,191 +62,274 @@ theorem set_notBefore_mono (nb m now : Int) (ov : Option Int) (hfut : nb > now) 
   cases ov with
   | none => simp
   | some d =>
-    simp only [Option.isSome_some, if_true, Option.getD_some, decide_eq_true_eq]
-    split <;> omega
+    simp only [Option.isSome_some, if_true, Option.getD_some, T.add]
+    by_cases hgt : now + d > nb <;> simp only [hgt, decide_true, decide_false, if_true, if_false, Bool.false_eq_true] <;> omega
 
 /-! ## pacing -/
 
-/-- **wait_ge_retry_after (kernel).** Whatever the state, after `set (some d)` the stored `notBefore` is at least `now + d`
-and the returned wait at least `d` (for `d` such that `now + d` does not overflow). -/
-theorem set_ge_override (nb m now d : Int) (hnow : 0 ≤ now ∧ now < 2^62) (hnb : InT nb)
-    (hd : -(2^62) ≤ d ∧ d < 2^62) :
+/-- **wait_ge_retry_after (kernel).** For every state, every instant and every override `d` (any `time.Duration`): after
+`set (some d)` the stored `notBefore` is at least `now + d` and the returned wait is at least `d`. No side condition. -/
+theorem set_ge_override (nb m now d : Int) (hd : IsDur d) :
     now + d ≤ (Gen.backoffSet nb m now (some d)).2.1 ∧ d ≤ (Gen.backoffSet nb m now (some d)).1 := by
-  unfold InT at *
+  unfold IsDur at hd
   unfold Gen.backoffSet
-  simp only [Option.isSome_some, if_true, Option.getD_some, decide_eq_true_eq]
-  have ha : I64.add now d = now + d := add_eq _ _ (by omega) (by omega)
-  simp only [ha]
-  split
-  · rename_i hfut
-    split
-    · rename_i hgt
-      have : I64.sub (now + d) now = d := by rw [sub_eq _ _ (by omega) (by omega)]; omega
-      simp only [this]; (try dsimp only); omega
-    · rename_i hle
-      have : I64.sub nb now = nb - now := sub_eq _ _ (by omega) (by omega)
-      simp only [this]; (try dsimp only); omega
-  · (try dsimp only); omega
+  simp only [Option.isSome_some, if_true, Option.getD_some, T.add, T.sub]
+  by_cases hfut : nb > now
+  · simp only [hfut, decide_true, if_true]
+    by_cases hgt : now + d > nb
+    · simp only [hgt, decide_true, if_true]
+      refine ⟨by omega, ?_⟩
+      have : now + d - now = d := by omega
+      rw [this, sat_id hd.1 hd.2]; omega
+    · simp only [hgt, decide_false, if_false, Bool.false_eq_true]
+      refine ⟨by omega, ?_⟩
+      have := sat_mono (x := d) (y := nb - now) (by omega)
+      rw [sat_id hd.1 hd.2] at this; exact this
+  · simp only [hfut, decide_false, if_false, Bool.false_eq_true]
+    omega
 
-/-- the sleep computed from a `notBefore` is at least the time remaining to it and at most that plus the jitter -/
-theorem waitDur_bounds (nb now j : Int) (hnow : 0 ≤ now ∧ now < 2^62) (hnb : InT nb) (hj : 0 ≤ j ∧ j * 1000000 < Gen.maxJitter) :
-    nb - now ≤ Gen.waitDur nb now j ∧ 0 ≤ Gen.waitDur nb now j ∧ Gen.waitDur nb now j ≤ max 0 (nb - now + Gen.maxJitter) := by
+/-- the sleep computed from a `notBefore`: at least the (saturated) time remaining to it, never negative, and at most that
+time plus the jitter -/
+theorem waitDur_bounds (nb now j : Int) (hj : 0 ≤ j ∧ j * 1000000 < Gen.maxJitter) :
+    sat (nb - now) ≤ Gen.waitDur nb now j ∧ 0 ≤ Gen.waitDur nb now j ∧
+    Gen.waitDur nb now j ≤ max 0 (sat (nb - now + Gen.maxJitter)) := by
   have hmj : Gen.maxJitter = 250000000 := by decide
   rw [hmj] at hj ⊢
-  unfold InT at *
   unfold Gen.waitDur
   have h1 : I64.wrap64 j = j := w _ (by omega) (by omega)
   rw [h1]
   have h2 : I64.mul 1000000 j = 1000000 * j := mul_eq _ _ (by omega) (by omega)
   rw [h2]
-  have h3 : I64.add nb (1000000 * j) = nb + 1000000 * j := add_eq _ _ (by omega) (by omega)
-  rw [h3]
-  have h4 : I64.sub (nb + 1000000 * j) now = nb + 1000000 * j - now := sub_eq _ _ (by omega) (by omega)
-  rw [h4]
-  simp only [decide_eq_true_eq]
-  split <;> omega
+  simp only [T.add, T.sub]
+  have m1 := sat_mono (x := nb - now) (y := nb + 1000000 * j - now) (by omega)
+  have m2 := sat_mono (x := nb + 1000000 * j - now) (y := nb - now + 250000000) (by omega)
+  by_cases hneg : sat (nb + 1000000 * j - now) < 0 <;>
+    simp only [hneg, decide_true, decide_false, if_true, if_false, Bool.false_eq_true] <;> omega
 
-/-- **wait_ge_retry_after.** After a 429/503 carrying `Retry-After: n` seconds (`0 ≤ n`, below 146 years) the next request is
-not sent before `now + n` seconds; with an HTTP-date `d` it is not sent before `d`. For every state of the shared back-off
-and every jitter draw. -/
+/-- the quotient of an int64 by 10⁹ (Go's truncated division) lies strictly inside ±9223372037 -/
+theorem tdiv_e9_bounds (x : Int) (h : -(2^63) ≤ x ∧ x < 2^63) :
+    -9223372037 < Int.tdiv x 1000000000 ∧ Int.tdiv x 1000000000 < 9223372037 := by
+  rcases Int.le_total 0 x with h0 | h0
+  · rw [Int.tdiv_eq_ediv_of_nonneg h0]; omega
+  · have h2 : Int.tdiv x 1000000000 = -(Int.tdiv (-x) 1000000000) := by
+      rw [Int.neg_tdiv]; omega
+    rw [h2, Int.tdiv_eq_ediv_of_nonneg (by omega)]; omega
+
+/-- what `Retry-After: n` (seconds) becomes: `n` seconds, saturated to the largest / smallest `time.Duration` when
+`n · 10⁹` does not fit — for **every** integer `n` that `strconv.Atoi` can return. -/
+theorem retryAfterSeconds_sat (n : Int) (hn : -(2^63) ≤ n ∧ n < 2^63) :
+    Gen.retryAfterSeconds n = sat (n * 1000000000) := by
+  unfold Gen.retryAfterSeconds
+  rw [w n hn.1 hn.2]
+  by_cases hin : -(2^63) ≤ n * 1000000000 ∧ n * 1000000000 < 2^63
+  · rw [mul_eq _ _ hin.1 hin.2, sat_id hin.1 hin.2]
+    have : I64.div (n * 1000000000) 1000000000 = n := by
+      unfold I64.div
+      rw [Int.mul_tdiv_cancel _ (by decide)]
+      exact w n hn.1 hn.2
+    simp [this]
+  · -- the product overflowed: the wrapped value divided by 10⁹ is at most 9223372036 in absolute value, never `n`
+    have hbig : n ≥ 9223372037 ∨ n ≤ -9223372037 := by omega
+    have hb := wrap64_inRange (n * 1000000000)
+    unfold inRange at hb
+    have hq := tdiv_e9_bounds (wrap64 (n * 1000000000)) hb
+    have hne : I64.div (I64.mul n 1000000000) 1000000000 ≠ n := by
+      unfold I64.div I64.mul
+      rw [w _ (by omega) (by omega)]
+      omega
+    simp only [hne, decide_true, if_true, ne_eq, not_false_eq_true, decide_eq_true_eq]
+    unfold sat
+    rcases hbig with h | h
+    · have : n > 0 := by omega
+      simp only [this, if_true]
+      split
+      · omega
+      · split <;> omega
+    · have : ¬ n > 0 := by omega
+      simp only [this, if_false]
+      split
+      · rfl
+      · omega
+
+/-- **wait_ge_retry_after (seconds).** After a 429/503 carrying `Retry-After: n` the next request is not sent before
+`n` seconds have passed — for every `n ≥ 0` the header can carry (when `n` seconds exceed what a `time.Duration` can hold,
+the wait is the largest `time.Duration`, 292 years), for every state of the shared back-off, every instant and every
+jitter draw. -/
 theorem wait_ge_retry_after_secs (s : BState) (now n j : Int) (st : Nat) (hst : classOf st = 2)
-    (hnow : 0 ≤ now ∧ now < 2^62) (hnb : InT s.notBefore) (hn : 0 ≤ n ∧ n * 1000000000 < 2^62)
-    (hj : 0 ≤ j ∧ j * 1000000 < Gen.maxJitter)
-    (hnb' : InT (onResponse s now (.http st (.secs n))).2.notBefore) :
+    (hn : 0 ≤ n ∧ n < 2^63) (hj : 0 ≤ j ∧ j * 1000000 < Gen.maxJitter) :
     (onResponse s now (.http st (.secs n))).1 = .retry ∧
-    n * 1000000000 ≤ waitFor (onResponse s now (.http st (.secs n))).2 now j := by
-  have hov : overrideOf now (.secs n) = some (n * 1000000000) := by
-    simp only [overrideOf, Gen.retryAfterSeconds]
-    rw [w n (by omega) (by omega), mul_eq _ _ (by omega) (by omega)]
-  have hon : onResponse s now (.http st (.secs n)) = (.retry, (applySet s now (some (n * 1000000000))).2) := by
+    sat (n * 1000000000) ≤ waitFor (onResponse s now (.http st (.secs n))).2 now j := by
+  have hov : overrideOf now (.secs n) = some (sat (n * 1000000000)) := by
+    simp only [overrideOf]; rw [retryAfterSeconds_sat n ⟨by omega, hn.2⟩]
+  have hon : onResponse s now (.http st (.secs n)) = (.retry, (applySet s now (some (sat (n * 1000000000)))).2) := by
     unfold onResponse; simp only [hst, hov]
-  rw [hon] at hnb' ⊢
+  rw [hon]
   refine ⟨rfl, ?_⟩
-  have hs := set_ge_override s.notBefore s.mult now (n * 1000000000) hnow hnb (by omega)
-  unfold applySet at hnb' ⊢
-  simp only at hnb' ⊢
-  have hb := waitDur_bounds _ now j hnow hnb' hj
-  unfold waitFor
+  have hd := sat_bounds (n * 1000000000)
+  have hs := set_ge_override s.notBefore s.mult now (sat (n * 1000000000)) hd
+  unfold applySet waitFor
   simp only
+  have hb := waitDur_bounds (Gen.backoffSet s.notBefore s.mult now (some (sat (n * 1000000000)))).2.1 now j hj
+  have hm := sat_mono (x := sat (n * 1000000000)) (y := (Gen.backoffSet s.notBefore s.mult now (some (sat (n * 1000000000)))).2.1 - now) (by omega)
+  rw [sat_id hd.1 hd.2] at hm
   omega
 
+/-- **wait_ge_retry_after (HTTP-date).** With `Retry-After: <date d>` the next request is not sent before `d`
+(when `d` lies within ±292 years of now — beyond that, not before now + the largest `time.Duration`). -/
 theorem wait_ge_retry_after_date (s : BState) (now d j : Int) (st : Nat) (hst : classOf st = 2)
-    (hnow : 0 ≤ now ∧ now < 2^62) (hnb : InT s.notBefore) (hd : 0 ≤ d ∧ d < 2^62)
-    (hj : 0 ≤ j ∧ j * 1000000 < Gen.maxJitter)
-    (hnb' : InT (onResponse s now (.http st (.date d))).2.notBefore) :
+    (hj : 0 ≤ j ∧ j * 1000000 < Gen.maxJitter) :
     (onResponse s now (.http st (.date d))).1 = .retry ∧
-    d ≤ now + waitFor (onResponse s now (.http st (.date d))).2 now j := by
-  have hov : overrideOf now (.date d) = some (d - now) := by
-    simp only [overrideOf]
-    rw [sub_eq _ _ (by omega) (by omega)]
-  have hon : onResponse s now (.http st (.date d)) = (.retry, (applySet s now (some (d - now))).2) := by
+    now + sat (d - now) ≤ now + waitFor (onResponse s now (.http st (.date d))).2 now j := by
+  have hov : overrideOf now (.date d) = some (sat (d - now)) := by simp only [overrideOf, T.sub]
+  have hon : onResponse s now (.http st (.date d)) = (.retry, (applySet s now (some (sat (d - now)))).2) := by
     unfold onResponse; simp only [hst, hov]
-  rw [hon] at hnb' ⊢
+  rw [hon]
   refine ⟨rfl, ?_⟩
-  have hs := set_ge_override s.notBefore s.mult now (d - now) hnow hnb (by omega)
-  unfold applySet at hnb' ⊢
-  simp only at hnb' ⊢
-  have hb := waitDur_bounds _ now j hnow hnb' hj
-  unfold waitFor
+  have hd := sat_bounds (d - now)
+  have hs := set_ge_override s.notBefore s.mult now (sat (d - now)) hd
+  unfold applySet waitFor
   simp only
+  have hb := waitDur_bounds (Gen.backoffSet s.notBefore s.mult now (some (sat (d - now)))).2.1 now j hj
+  have hm := sat_mono (x := sat (d - now)) (y := (Gen.backoffSet s.notBefore s.mult now (some (sat (d - now)))).2.1 - now) (by omega)
+  rw [sat_id hd.1 hd.2] at hm
   omega
 
-/-- invariant of a history in which the server never asked for more: the stored `notBefore` is at most 128 s ahead -/
-def CapInv (s : BState) (now : Int) : Prop :=
-  0 ≤ s.mult ∧ s.mult ≤ 8 ∧ s.notBefore ≤ now + 128000000000 ∧ InT s.notBefore
+theorem date_in_range (d now : Int) (h : -(2^63) ≤ d - now ∧ d - now < 2^63) : now + sat (d - now) = d := by
+  rw [sat_id h.1 h.2]; omega
 
-theorem capInv_init (now : Int) (h : 0 ≤ now) : CapInv BState.init now := by
-  unfold CapInv BState.init zeroInstant InT at *; simp; omega
+/-! ### the cap: never longer than 128 s + jitter unless the server asked for more -/
 
-/-- **wait_le_cap (step).** A `set(nil)` at time `now` keeps the invariant and returns a wait of at most 128 s. -/
-theorem set_nil_cap (s : BState) (now : Int) (hnow : 0 ≤ now) (hnow' : now < 2^61) (h : CapInv s now) :
-    CapInv (applySet s now none).2 now ∧ (applySet s now none).1 ≤ 128000000000 ∧ 0 ≤ (applySet s now none).1 := by
-  obtain ⟨h0, h8, hnb, hin⟩ := h
-  unfold InT at *
-  unfold applySet CapInv Gen.backoffSet
+/-- the latest instant any honoured Retry-After so far asked the client to stay away until -/
+def askedUntil (U now : Int) (ov : Option Int) : Int :=
+  match ov with
+  | none => U
+  | some d => max U (now + d)
+
+/-- invariant over **every** history: the stored `notBefore` is at most 128 s ahead of now, or no later than what some
+Retry-After received so far asked for -/
+def CapInv (s : BState) (now U : Int) : Prop :=
+  0 ≤ s.mult ∧ s.mult ≤ 8 ∧ s.notBefore ≤ max (now + 128000000000) U
+
+theorem capInv_init (now U : Int) (h : 0 ≤ now) : CapInv BState.init now U := by
+  unfold CapInv BState.init zeroInstant; simp; omega
+
+theorem capInv_later (s : BState) (now now' U : Int) (h : CapInv s now U) (hle : now ≤ now') : CapInv s now' U := by
+  obtain ⟨a, b, c⟩ := h
+  exact ⟨a, b, by omega⟩
+
+/-- one `set` (any override) keeps the invariant, with the asked-until bound updated by the override -/
+theorem set_cap (s : BState) (now U : Int) (ov : Option Int) (h : CapInv s now U) :
+    CapInv (applySet s now ov).2 now (askedUntil U now ov) := by
+  obtain ⟨h0, h8, hnb⟩ := h
+  have hm := set_mult_inv s.notBefore s.mult now ov (by rw [show Gen.maxMultiplier = 8 by decide]; omega)
+  rw [show Gen.maxMultiplier = 8 by decide] at hm
+  refine ⟨hm.1, hm.2, ?_⟩
+  unfold applySet askedUntil Gen.backoffSet
   have hm8 : Gen.maxMultiplier = 8 := by decide
-  simp only [Option.isSome_none, Bool.false_eq_true, if_false, decide_eq_true_eq, hm8]
-  split
-  · rename_i hfut
-    have : I64.sub s.notBefore now = s.notBefore - now := sub_eq _ _ (by omega) (by omega)
-    simp only [this]
-    try dsimp only
-    refine ⟨⟨h0, h8, hnb, ?_⟩, ?_, ?_⟩
-    · unfold InT; omega
-    · omega
-    · omega
-  · rename_i hpast
+  cases ov with
+  | some d =>
+    simp only [Option.isSome_some, if_true, Option.getD_some, T.add]
+    by_cases hfut : s.notBefore > now
+    · simp only [hfut, decide_true, if_true]
+      by_cases hgt : now + d > s.notBefore <;>
+        simp only [hgt, decide_true, decide_false, if_true, if_false, Bool.false_eq_true] <;> omega
+    · simp only [hfut, decide_false, if_false, Bool.false_eq_true]; omega
+  | none =>
+    simp only [Option.isSome_none, Bool.false_eq_true, if_false, decide_eq_true_eq, hm8, T.add]
     split
-    · rename_i hlt
-      have ha : I64.add s.mult 1 = s.mult + 1 := add_eq _ _ (by omega) (by omega)
-      simp only [ha]
-      obtain ⟨l1, l2, l3⟩ := ladder (s.mult + 1) (by omega) (by omega)
-      rw [l1]
-      have hadd : I64.add now (1000000000 * 2 ^ (s.mult + 1 - 1).toNat) = now + 1000000000 * 2 ^ (s.mult + 1 - 1).toNat :=
-        add_eq _ _ (by omega) (by omega)
-      simp only [hadd]
-      try dsimp only
-      refine ⟨⟨by omega, by omega, by omega, ?_⟩, by omega, by omega⟩
-      unfold InT; omega
-    · rename_i hge
-      have hm : s.mult = 8 := by omega
-      simp only [hm]
-      obtain ⟨l1, l2, l3⟩ := ladder 8 (by omega) (by omega)
-      rw [l1]
-      have hadd : I64.add now (1000000000 * 2 ^ ((8:Int) - 1).toNat) = now + 1000000000 * 2 ^ ((8:Int) - 1).toNat :=
-        add_eq _ _ (by omega) (by omega)
-      simp only [hadd]
-      try dsimp only
-      refine ⟨⟨by omega, by omega, by omega, ?_⟩, by omega, by omega⟩
-      unfold InT; omega
+    · (try dsimp only); omega
+    · split
+      · rename_i hlt
+        have ha : I64.add s.mult 1 = s.mult + 1 := add_eq _ _ (by omega) (by omega)
+        simp only [ha]
+        obtain ⟨l1, l2, l3⟩ := ladder (s.mult + 1) (by omega) (by omega)
+        rw [l1]; (try dsimp only); omega
+      · have hm' : s.mult = 8 := by omega
+        simp only [hm']
+        obtain ⟨l1, l2, l3⟩ := ladder 8 (by omega) (by omega)
+        rw [l1]; (try dsimp only); omega
 
-/-- the invariant survives the passage of time -/
-theorem capInv_later (s : BState) (now now' : Int) (h : CapInv s now) (hle : now ≤ now') : CapInv s now' := by
-  obtain ⟨a, b, c, d⟩ := h
-  exact ⟨a, b, by omega, d⟩
+/-- what a response does to the asked-until bound -/
+def askedAfter (U now : Int) : Resp → Int
+  | .http st ra => if classOf st = 2 then askedUntil U now (overrideOf now ra) else U
+  | _ => U
 
-/-- **wait_le_cap.** For every history of responses in which no Retry-After was ever honoured (every back-off `set` had a nil
-override: errors, unparsable bodies, 429/503 without or with an unusable Retry-After), at non-decreasing instants, the sleep
-before every retry is at most the 128 s exponential cap plus the fixed jitter. -/
-theorem wait_le_cap (hist : List (Int × Resp)) : ∀ (s : BState) (t0 : Int), CapInv s t0 → (0 ≤ t0 ∧ t0 < 2^61) →
-    (∀ p ∈ hist, 0 ≤ p.1 ∧ p.1 < 2^61 ∧ t0 ≤ p.1 ∧ (∀ st ra, p.2 = .http st ra → overrideOf p.1 ra = none)) →
-    hist.Pairwise (fun a b => a.1 ≤ b.1) →
+theorem onResponse_cap (s : BState) (now U : Int) (r : Resp) (h : CapInv s now U) :
+    CapInv (onResponse s now r).2 now (askedAfter U now r) := by
+  cases r with
+  | ctxErr => simpa [onResponse, askedAfter] using h
+  | otherErr => simpa [onResponse, askedAfter, askedUntil] using set_cap s now U none h
+  | http st ra =>
+    unfold onResponse askedAfter
+    by_cases h2 : classOf st = 2
+    · simp only [h2, if_true]; exact set_cap s now U _ h
+    · simp only [h2, if_false]
+      split <;> first | exact h | (rename_i hh; exact absurd hh h2)
+
+/-- **wait_le_cap.** For **every** history of responses at non-decreasing instants (any statuses, any Retry-After
+values, errors, unparsable bodies), the sleep before the next retry is at most the jitter plus the larger of
+(a) the 128 s exponential cap and (b) the time remaining until the latest instant a Retry-After received so far asked
+for. In particular, when the server has not asked for more, it is at most 128 s + jitter. -/
+theorem wait_le_cap (hist : List (Int × Resp)) : ∀ (s : BState) (t0 U : Int), CapInv s t0 U →
+    (∀ p ∈ hist, t0 ≤ p.1) → hist.Pairwise (fun a b => a.1 ≤ b.1) →
     ∀ (j : Int), (0 ≤ j ∧ j * 1000000 < Gen.maxJitter) →
-    let final := hist.foldl (fun (acc : BState × Int) p => ((onResponse acc.1 p.1 p.2).2, p.1)) (s, t0)
-    CapInv final.1 final.2 ∧ waitFor final.1 final.2 j ≤ 128000000000 + Gen.maxJitter := by
+    let final := hist.foldl (fun (acc : BState × Int × Int) p => ((onResponse acc.1 p.1 p.2).2, p.1, askedAfter acc.2.2 p.1 p.2)) (s, t0, U)
+    CapInv final.1 final.2.1 final.2.2 ∧
+    waitFor final.1 final.2.1 j ≤ max 128000000000 (final.2.2 - final.2.1) + Gen.maxJitter := by
   induction hist with
   | nil =>
-    intro s t0 hinv ht0 _ _ j hj
+    intro s t0 U hinv _ _ j hj
     simp only [List.foldl_nil]
     refine ⟨hinv, ?_⟩
-    have := waitDur_bounds s.notBefore t0 j (by omega) hinv.2.2.2 hj
-    unfold waitFor; unfold CapInv at hinv
+    have hb := waitDur_bounds s.notBefore t0 j hj
+    unfold waitFor
+    obtain ⟨_, _, hnb⟩ := hinv
     have hmj : Gen.maxJitter = 250000000 := by decide
-    rw [hmj] at this ⊢; omega
+    rw [hmj] at hb ⊢
+    have : sat (s.notBefore - t0 + 250000000) ≤ max 128000000000 (U - t0) + 250000000 := by
+      unfold sat; split
+      · omega
+      · split <;> omega
+    omega
   | cons p rest ih =>
-    intro s t0 hinv ht0 hall hpw j hj
+    intro s t0 U hinv hall hpw j hj
     simp only [List.foldl_cons]
-    have hp := hall p (by simp)
-    obtain ⟨hp0, hp61, hple, hpov⟩ := hp
-    have hinv' : CapInv (onResponse s p.1 p.2).2 p.1 := by
-      have hl := capInv_later s t0 p.1 hinv hple
-      unfold onResponse
-      cases hr : p.2 with
-      | ctxErr => simpa using hl
-      | otherErr => simp only; exact (set_nil_cap s p.1 hp0 hp61 hl).1
-      | http st ra =>
-        simp only
-        split
-        · exact hl
-        · exact hl
-        · rw [hpov st ra hr]; exact (set_nil_cap s p.1 hp0 hp61 hl).1
-        · exact hl
+    have hple := hall p (by simp)
+    have hinv' := onResponse_cap s p.1 U p.2 (capInv_later s t0 p.1 U hinv hple)
     rw [List.pairwise_cons] at hpw
-    exact ih _ p.1 hinv' ⟨hp0, hp61⟩ (fun q hq => by
-      have := hall q (by simp [hq])
-      exact ⟨this.1, this.2.1, hpw.1 q hq, this.2.2.2⟩) hpw.2 j hj
+    exact ih _ p.1 _ hinv' (fun q hq => hpw.1 q hq) hpw.2 j hj
+
+/-- the instance the property text names: no Retry-After was honoured ⇒ the bound stays where it started -/
+theorem askedAfter_none (U now : Int) (r : Resp) (h : ∀ st ra, r = .http st ra → overrideOf now ra = none) :
+    askedAfter U now r = U := by
+  cases r with
+  | ctxErr => rfl
+  | otherErr => rfl
+  | http st ra =>
+    simp only [askedAfter, h st ra rfl, askedUntil, ite_self]
 
 /-! ## what is retried, what is returned -/
+
+theorem classOf_eq (st : Nat) :
+    classOf st = (if st = 200 then 0 else if st = 408 then 1 else if st = 503 then 2 else if st = 429 then 2 else 3) := by
+  unfold classOf
+  have : Gen.retryClass = [(200, 0), (408, 1), (503, 2), (429, 2)] := by decide
+  have hd : Gen.retryClassDefault = 3 := by decide
+  rw [this, hd]
+  simp only [List.lookup]
+  by_cases h1 : st = 200
+  · subst h1; simp
+  · by_cases h2 : st = 408
+    · subst h2; simp
+    · by_cases h3 : st = 503
+      · subst h3; simp
+      · by_cases h4 : st = 429
+        · subst h4; simp
+        · have e1 : (st == 200) = false := by simp [h1]
+          have e2 : (st == 408) = false := by simp [h2]
+          have e3 : (st == 503) = false := by simp [h3]
+          have e4 : (st == 429) = false := by simp [h4]
+          simp [e1, e2, e3, e4, h1, h2, h3, h4]
 
 /-- **retry_set.** A received response is retried exactly for 408, 429 and 503; 200 is returned as success; every other
 status is returned at once as an error, without touching the back-off. Errors from the transport (and a POST converted
@@ -257,27 +339,8 @@ theorem retry_set (s : BState) (now : Int) (st : Nat) (ra : RA) :
     ((onResponse s now (.http st ra)).1 = .retOk ↔ st = 200) ∧
     ((onResponse s now (.http st ra)).1 = .retErr ↔ (st ≠ 200 ∧ st ≠ 408 ∧ st ≠ 429 ∧ st ≠ 503)) ∧
     ((onResponse s now (.http st ra)).1 = .retErr → (onResponse s now (.http st ra)).2 = s) := by
-  have hc : classOf st = (if st = 200 then 0 else if st = 408 then 1 else if st = 503 then 2 else if st = 429 then 2 else 3) := by
-    unfold classOf
-    have : Gen.retryClass = [(200, 0), (408, 1), (503, 2), (429, 2)] := by decide
-    have hd : Gen.retryClassDefault = 3 := by decide
-    rw [this, hd]
-    simp only [List.lookup]
-    by_cases h1 : st = 200
-    · subst h1; simp
-    · by_cases h2 : st = 408
-      · subst h2; simp
-      · by_cases h3 : st = 503
-        · subst h3; simp
-        · by_cases h4 : st = 429
-          · subst h4; simp
-          · have e1 : (st == 200) = false := by simp [h1]
-            have e2 : (st == 408) = false := by simp [h2]
-            have e3 : (st == 503) = false := by simp [h3]
-            have e4 : (st == 429) = false := by simp [h4]
-            simp [e1, e2, e3, e4, h1, h2, h3, h4]
   unfold onResponse
-  simp only [hc]
+  simp only [classOf_eq]
   by_cases h1 : st = 200
   · subst h1; simp
   · by_cases h2 : st = 408
@@ -292,14 +355,83 @@ theorem other_errors_retried (s : BState) (now : Int) :
     (onResponse s now .otherErr).1 = .retry ∧ (onResponse s now .otherErr).1 ≠ .retOk := by
   unfold onResponse; simp
 
-/-- **ctx_prompt (model).** A context error from the attempt is returned at once, with the back-off untouched. -/
+/-- a context error from the attempt (the caller's context ended before or during the request) is returned at once,
+with the back-off untouched -/
 theorem ctx_returned (s : BState) (now : Int) : onResponse s now .ctxErr = (.retCtx, s) := rfl
+
+/-- the response classes after which the loop goes round again, independent of state and instant -/
+def Retryable : Resp → Prop
+  | .ctxErr => False
+  | .otherErr => True
+  | .http st _ => st = 408 ∨ st = 429 ∨ st = 503
+
+theorem retry_iff (s : BState) (now : Int) (r : Resp) : (onResponse s now r).1 = .retry ↔ Retryable r := by
+  cases r with
+  | ctxErr => simp [onResponse, Retryable]
+  | otherErr => simp [onResponse, Retryable]
+  | http st ra => exact (retry_set s now st ra).1
+
+/-- **returns_first_good** (whole loop). Whatever the state of the shared back-off and whatever the instants, the loop
+consumes the script up to and including the first response that is not retryable, and ends with that response's
+action: success exactly for a parsable 200, the context's error for a context error, an error carrying the status for
+every other status. It never stops earlier and never carries on past such a response. -/
+theorem run_spec (l : List (Int × Resp)) : ∀ (s : BState) (a : Act) (k : Nat), run s l = some (a, k) →
+    1 ≤ k ∧ k ≤ l.length ∧ (∀ i, i + 1 < k → ∃ p, l[i]? = some p ∧ Retryable p.2) ∧
+    (∃ p s', l[k - 1]? = some p ∧ ¬ Retryable p.2 ∧ (onResponse s' p.1 p.2).1 = a ∧ a ≠ .retry) := by
+  induction l with
+  | nil => intro s a k h; simp [run] at h
+  | cons p rest ih =>
+    intro s a k h
+    obtain ⟨t, r⟩ := p
+    simp only [run] at h
+    by_cases hr : (onResponse s t r).1 = .retry
+    · have hs : onResponse s t r = (.retry, (onResponse s t r).2) := by rw [← hr]
+      rw [hs] at h
+      simp only [Option.map_eq_some_iff, Prod.mk.injEq, Prod.exists] at h
+      obtain ⟨a', k', hrun, rfl, rfl⟩ := h
+      obtain ⟨h1, h2, h3, p', s', hp', hnr, hact, hne⟩ := ih _ a' k' hrun
+      refine ⟨by omega, by simp; omega, ?_, p', s', ?_, hnr, hact, hne⟩
+      · intro i hi
+        cases i with
+        | zero => exact ⟨(t, r), by simp, (retry_iff s t r).mp hr⟩
+        | succ i => simpa using h3 i (by omega)
+      · have : k' + 1 - 1 = (k' - 1) + 1 := by omega
+        rw [this]; simpa using hp'
+    · have : ∃ a0 s0, onResponse s t r = (a0, s0) ∧ a0 ≠ .retry := ⟨_, _, rfl, hr⟩
+      obtain ⟨a0, s0, he, hne⟩ := this
+      rw [he] at h
+      have hak : a = a0 ∧ k = 1 := by
+        cases a0 <;> simp at h hne ⊢ <;> exact ⟨h.1.symm, h.2.symm⟩
+      obtain ⟨rfl, rfl⟩ := hak
+      refine ⟨by omega, by simp, by intro i hi; omega, (t, r), s, by simp, ?_, by rw [he], hne⟩
+      intro hR; exact hr ((retry_iff s t r).mpr hR)
+
+/-- …and conversely the loop does end as soon as such a response is in the script. -/
+theorem run_some_of_nonretryable (l : List (Int × Resp)) (h : ∃ p ∈ l, ¬ Retryable p.2) : ∀ s, (run s l).isSome := by
+  induction l with
+  | nil => simp at h
+  | cons p rest ih =>
+    intro s
+    obtain ⟨t, r⟩ := p
+    simp only [run]
+    by_cases hr : (onResponse s t r).1 = .retry
+    · have hs : onResponse s t r = (.retry, (onResponse s t r).2) := by rw [← hr]
+      rw [hs]
+      obtain ⟨q, hq, hnq⟩ := h
+      rcases List.mem_cons.mp hq with rfl | hq
+      · exact absurd ((retry_iff s t r).mp hr) hnq
+      · have := ih ⟨q, hq, hnq⟩ (onResponse s t r).2
+        simpa [Option.isSome_map] using this
+    · have : ∃ a0 s0, onResponse s t r = (a0, s0) ∧ a0 ≠ .retry := ⟨_, _, rfl, hr⟩
+      obtain ⟨a0, s0, he, hne⟩ := this
+      rw [he]
+      cases a0 <;> simp at hne ⊢
 
 /-- **r408_no_added_delay.** A 408 leaves the shared back-off exactly as it was: the sleep before the retry is only what an
 earlier back-off still requires (zero when none is pending). -/
 theorem r408_no_added_delay (s : BState) (now j : Int) (ra : RA) :
     (onResponse s now (.http 408 ra)).2 = s ∧
-    ((0 ≤ now ∧ now < 2^62) → InT s.notBefore → (0 ≤ j ∧ j * 1000000 < Gen.maxJitter) → s.notBefore + Gen.maxJitter ≤ now →
+    ((0 ≤ j ∧ j * 1000000 < Gen.maxJitter) → s.notBefore + Gen.maxJitter ≤ now →
       waitFor (onResponse s now (.http 408 ra)).2 now j = 0) := by
   have h : (onResponse s now (.http 408 ra)) = (.retry, s) := by
     unfold onResponse
@@ -307,11 +439,16 @@ theorem r408_no_added_delay (s : BState) (now j : Int) (ra : RA) :
     simp [this]
   rw [h]
   refine ⟨rfl, ?_⟩
-  intro hnow hnb hj hpast
-  have := waitDur_bounds s.notBefore now j hnow hnb hj
+  intro hj hpast
+  have hb := waitDur_bounds s.notBefore now j hj
   unfold waitFor
   simp only
-  have hmax : max 0 (s.notBefore - now + Gen.maxJitter) = 0 := by omega
+  have hmj : Gen.maxJitter = 250000000 := by decide
+  rw [hmj] at hb hpast
+  have : sat (s.notBefore - now + 250000000) ≤ 0 := by
+    have h1 := sat_mono (x := s.notBefore - now + 250000000) (y := 0) (by omega)
+    have h2 : sat 0 = 0 := by decide
+    omega
   omega
 
 /-! ## non-vacuity -/
@@ -319,8 +456,11 @@ example : Gen.backoffSet zeroInstant 0 1700000000000000000 none = (1000000000, 1
 example : Gen.backoffSet 1700000001000000000 8 1700000002000000000 none = (128000000000, 1700000130000000000, 8) := by decide
 example : Gen.backoffSet 1700000100000000000 3 1700000002000000000 (some 5000000000) = (98000000000, 1700000100000000000, 3) := by decide
 example : (onResponse BState.init 1700000000000000000 (.http 429 (.secs 30))).2.notBefore = 1700000030000000000 := by decide
+example : Gen.retryAfterSeconds 9223372037 = 9223372036854775807 ∧ Gen.retryAfterSeconds 18446744074 = 9223372036854775807 ∧
+    Gen.retryAfterSeconds 3600 = 3600000000000 := by decide
 example : classOf 429 = 2 ∧ classOf 503 = 2 ∧ classOf 408 = 1 ∧ classOf 500 = 3 ∧ classOf 200 = 0 := by decide
-example : CapInv BState.init 1700000000000000000 ∧ InT 1700000000000000000 := by
-  unfold CapInv BState.init zeroInstant InT; simp
+example : CapInv BState.init 1700000000000000000 zeroInstant := by unfold CapInv BState.init zeroInstant; simp; omega
+example : run BState.init [(10, .otherErr), (20, .http 503 .none), (30, .http 200 .none), (40, .http 500 .none)] = some (.retOk, 3) := by decide
+example : run BState.init [(10, .http 408 .none), (20, .http 404 .none)] = some (.retErr, 2) := by decide
 
 end C13
